@@ -33,12 +33,16 @@ MODEL = M7()
 
 def gen(rng, prop, job):
     from . import m7_tqueue
+    if job.get("objects"):
+        return m7_tqueue.gen_objects(rng)
     return m7_tqueue.gen_scenario(rng)
 
 
 def make_jobs(prop, tier, seed):
     jobs = plug.std_jobs(prop, tier, seed, "m7", n_quick=16, per_quick=5, schedules=4)
     jobs.extend(plug.line_jobs(prop, tier, seed))
+    for j in range(2 if tier == "quick" else 12):
+        jobs.append({"kind": "explore", "objects": True, "no_driver": True, "prop": prop, "seed": seed * 8191 + j, "scenarios": 6, "schedules": 3})
     if tier == "thorough":
         for j in range(24):
             jobs.append({"kind": "pbound", "prop": prop, "seed": seed * 104729 + j, "k": 2, "budget": 1200})
